@@ -95,7 +95,140 @@ func (p *Prog) Callees(site ssa.CallInstruction) []Edge {
 	if _, ok := cc.Value.(*ssa.Builtin); ok {
 		return nil
 	}
+	// dynamic call: resolve function parameters to the closures/functions passed at every call site of
+	// the enclosing function, and values read from package-level tables of functions to the table entries
+	if fns := p.dynamicTargets(cc.Value, site.Parent(), 0); len(fns) > 0 {
+		var out []Edge
+		for _, f := range fns {
+			out = append(out, Edge{site, kind, f, ""})
+		}
+		return out
+	}
 	return []Edge{{site, kind, nil, "dynamic " + cc.Value.String()}}
+}
+
+// dynamicTargets resolves a function-typed value to module functions, or nil
+// when it cannot be resolved completely.
+func (p *Prog) dynamicTargets(v ssa.Value, in *ssa.Function, depth int) []*ssa.Function {
+	if depth > 3 {
+		return nil
+	}
+	switch t := v.(type) {
+	case *ssa.Function:
+		return []*ssa.Function{p.unthunk(t)}
+	case *ssa.MakeClosure:
+		if f, ok := t.Fn.(*ssa.Function); ok {
+			return []*ssa.Function{f}
+		}
+	case *ssa.ChangeType:
+		return p.dynamicTargets(t.X, in, depth+1)
+	case *ssa.Parameter:
+		fn := t.Parent()
+		idx := -1
+		for i, pr := range fn.Params {
+			if pr == t {
+				idx = i
+			}
+		}
+		if idx < 0 || p.resolving[fn] {
+			return nil
+		}
+		p.resolving[fn] = true
+		defer delete(p.resolving, fn)
+		sites := p.staticCallers(fn)
+		if len(sites) == 0 {
+			return nil
+		}
+		var out []*ssa.Function
+		for _, cs := range sites {
+			args := cs.Common().Args
+			if idx >= len(args) {
+				return nil
+			}
+			fs := p.dynamicTargets(args[idx], cs.Parent(), depth+1)
+			if len(fs) == 0 {
+				return nil
+			}
+			out = append(out, fs...)
+		}
+		return out
+	case *ssa.Extract:
+		if lk, ok := t.Tuple.(*ssa.Lookup); ok && t.Index == 0 {
+			return p.tableFuncs(lk.X)
+		}
+	case *ssa.Lookup:
+		return p.tableFuncs(t.X)
+	case *ssa.Phi:
+		var out []*ssa.Function
+		for _, e := range t.Edges {
+			fs := p.dynamicTargets(e, in, depth+1)
+			if len(fs) == 0 {
+				return nil
+			}
+			out = append(out, fs...)
+		}
+		return out
+	}
+	return nil
+}
+
+// staticCallers: call sites (in module functions) whose static callee is fn,
+// computed without going through Callees (no recursion into dynamic resolution).
+func (p *Prog) staticCallers(fn *ssa.Function) []ssa.CallInstruction {
+	if p.staticCallersOf == nil {
+		p.staticCallersOf = map[*ssa.Function][]ssa.CallInstruction{}
+		for _, f := range p.ModFuncs {
+			for _, cs := range CallSites(f) {
+				if c := cs.Common(); !c.IsInvoke() {
+					if sc := c.StaticCallee(); sc != nil {
+						p.staticCallersOf[sc] = append(p.staticCallersOf[sc], cs)
+					}
+				}
+			}
+		}
+	}
+	return p.staticCallersOf[fn]
+}
+
+// tableFuncs: m is a load of a package-level map whose values, all set in the
+// package initialiser, are functions: returns them all.
+func (p *Prog) tableFuncs(m ssa.Value) []*ssa.Function {
+	u, ok := m.(*ssa.UnOp)
+	if !ok {
+		return nil
+	}
+	g, ok := u.X.(*ssa.Global)
+	if !ok || g.Pkg == nil {
+		return nil
+	}
+	init := g.Pkg.Func("init")
+	if init == nil {
+		return nil
+	}
+	var mm ssa.Value
+	funcInstrs(init, func(in ssa.Instruction) {
+		if s, ok := in.(*ssa.Store); ok && s.Addr == ssa.Value(g) {
+			mm = s.Val
+		}
+	})
+	if mm == nil {
+		return nil
+	}
+	var out []*ssa.Function
+	okAll := true
+	funcInstrs(init, func(in ssa.Instruction) {
+		if mu, ok := in.(*ssa.MapUpdate); ok && mu.Map == mm {
+			if f := p.funcValue(mu.Value); f != nil {
+				out = append(out, f)
+			} else {
+				okAll = false
+			}
+		}
+	})
+	if !okAll {
+		return nil
+	}
+	return out
 }
 
 func (p *Prog) inModule(pk *types.Package) bool {
@@ -224,5 +357,41 @@ func AnonClosure(fn *ssa.Function) []*ssa.Function {
 	for _, a := range fn.AnonFuncs {
 		out = append(out, AnonClosure(a)...)
 	}
+	return out
+}
+
+// tableEntries: like tableFuncs but keyed by the (constant string) map key.
+func (p *Prog) tableEntries(m ssa.Value) map[string]*ssa.Function {
+	u, ok := m.(*ssa.UnOp)
+	if !ok {
+		return nil
+	}
+	g, ok := u.X.(*ssa.Global)
+	if !ok || g.Pkg == nil {
+		return nil
+	}
+	init := g.Pkg.Func("init")
+	if init == nil {
+		return nil
+	}
+	var mm ssa.Value
+	funcInstrs(init, func(in ssa.Instruction) {
+		if s, ok := in.(*ssa.Store); ok && s.Addr == ssa.Value(g) {
+			mm = s.Val
+		}
+	})
+	if mm == nil {
+		return nil
+	}
+	out := map[string]*ssa.Function{}
+	funcInstrs(init, func(in ssa.Instruction) {
+		if mu, ok := in.(*ssa.MapUpdate); ok && mu.Map == mm {
+			if k, ok := constString(mu.Key); ok {
+				if f := p.funcValue(mu.Value); f != nil {
+					out[k] = f
+				}
+			}
+		}
+	})
 	return out
 }
